@@ -203,6 +203,111 @@ def nesting_depth_checks(out):
 
 
 
+def subst_cases(rng, n):
+    """(bindings, expression, observed, py_expression, py_bindings, py_observed) for random type expressions over int/str/float,
+    List, Dict[str, _], Tuple[_, _] and two generic dataclasses G[_], G2[_, _], nested up to depth 4; random bindings of a subset
+    of four type variables to expressions that may mention type variables themselves (the substitution is simultaneous)."""
+    import pane
+    from pane.util import replace_typevars
+    TV = [t.TypeVar(f'T{i}') for i in range(4)]
+    CONST = {'int': int, 'str': str, 'float': float}
+    ns = {}
+    exec('import typing as t, pane\n'
+         'class G(pane.PaneBase, t.Generic[A]):\n    x: A\n'
+         'class G2(pane.PaneBase, t.Generic[A, B]):\n    x: A\n    y: B\n', {'A': TV[0], 'B': TV[1], '__name__': __name__}, ns)
+    G, G2 = ns['G'], ns['G2']
+
+    def g_exp(depth):
+        r = rng.random()
+        if depth <= 0 or r < 0.25:
+            return ('var', rng.randrange(4)) if rng.random() < 0.6 else ('const', rng.choice(list(CONST)))
+        k = rng.choice(['list', 'dict', 'tuple', 'G', 'G', 'G2'])
+        if k in ('list', 'G'):
+            return ('app', k, [g_exp(depth - 1)])
+        if k == 'dict':
+            return ('app', k, [('const', 'str'), g_exp(depth - 1)])
+        return ('app', k, [g_exp(depth - 1), g_exp(depth - 1)])
+
+    def to_py(e):
+        if e[0] == 'var':
+            return TV[e[1]]
+        if e[0] == 'const':
+            return CONST[e[1]]
+        a = [to_py(x) for x in e[2]]
+        return {'list': lambda: t.List[a[0]], 'dict': lambda: t.Dict[a[0], a[1]], 'tuple': lambda: t.Tuple[a[0], a[1]],
+                'G': lambda: G[a[0]], 'G2': lambda: G2[a[0], a[1]]}[e[1]]()
+
+    def to_exp(ty):
+        if isinstance(ty, t.TypeVar):
+            return ('var', TV.index(ty))
+        for k, v in CONST.items():
+            if ty is v:
+                return ('const', k)
+        o = t.get_origin(ty)
+        if o in (list, dict, tuple):
+            return ('app', o.__name__, [to_exp(x) for x in t.get_args(ty)])
+        if isinstance(ty, type) and ty.__dict__.get('__pane_boundvars__'):
+            return ('app', ty.__dict__['__origin__'].__name__, [to_exp(x) for x in ty.__dict__['__pane_boundvars__'].values()])
+        raise ValueError(f'not an expression of the grammar: {ty!r}')
+
+    out = []
+    # the shapes "through any depth" is about, deterministically: a variable under 1-4 generic dataclasses / containers
+    fixed = []
+    for chain in [['G'], ['G', 'G'], ['G', 'G', 'G'], ['G', 'list', 'G'], ['list', 'G', 'G'], ['G', 'G', 'G', 'G'], ['G2'], ['G', 'G2'], ['G2', 'G'], ['tuple', 'G', 'G2']]:
+        e = ('var', 0)
+        for k in reversed(chain):
+            e = ('app', k, [e]) if k in ('G', 'list') else ('app', k, [e, ('var', 1)])
+        fixed.append((e, {0: ('const', 'int')}))
+        fixed.append((e, {0: ('const', 'int'), 1: ('app', 'list', [('var', 0)])}))
+        fixed.append((e, {1: ('const', 'str')}))
+    with warnings.catch_warnings():
+        warnings.simplefilter('ignore')
+        for i in range(n):
+            if i < len(fixed):
+                e, b = fixed[i]
+            else:
+                e = g_exp(rng.randint(1, 4))
+                b = {v: g_exp(rng.randint(0, 2)) for v in rng.sample(range(4), rng.randint(0, 4))}
+            try:
+                py = to_py(e)
+                if to_exp(py) != e:
+                    continue
+                pyb = {TV[v]: to_py(x) for v, x in b.items()}
+                if any(to_exp(pyb[TV[v]]) != x for v, x in b.items()):
+                    continue
+            except Exception:
+                continue
+            try:
+                got = replace_typevars(py, pyb)
+                obs = to_exp(got)
+            except Exception as ex:
+                out.append((b, e, None, py, pyb, ex))
+                continue
+            out.append((b, e, obs, py, pyb, got))
+    return out
+
+
+def exp_vars(e):
+    if e[0] == 'var':
+        return {e[1]}
+    if e[0] == 'const':
+        return set()
+    return set().union(*[exp_vars(x) for x in e[2]]) if e[2] else set()
+
+
+def exp_to_coq(e):
+    if e[0] == 'var':
+        return f'(EVar {e[1]})'
+    if e[0] == 'const':
+        return f'(EConst "{e[1]}")'
+    return f'(EApp "{e[1]}" [' + '; '.join(exp_to_coq(x) for x in e[2]) + '])'
+
+
+def render_subst_case(c):
+    b, e, obs = c[0], c[1], c[2]
+    return '([' + '; '.join(f'({v}, {exp_to_coq(x)})' for v, x in sorted(b.items())) + f'], {exp_to_coq(e)}, {exp_to_coq(obs)})'
+
+
 GENERIC_CASES = '''
 T = t.TypeVar('T'); U = t.TypeVar('U'); V = t.TypeVar('V'); W = t.TypeVar('W')
 class G(pane.PaneBase, t.Generic[T, U]):
@@ -561,6 +666,35 @@ def run(ctx, out):
     out.evaluations += generic_checks(out)
     out.evaluations += diamond_checks(rng, out, 150 if ctx['tier'] == 'quick' else 3000)
     out.evaluations += options_checks(rng, out)
+    # type-variable substitution: util.replace_typevars against the model's tsubst (the function the C17 substitution theorems are about)
+    scases = subst_cases(random.Random(ctx['seed'] + 17), 600 if not thorough else 6000)
+    out.evaluations += len(scases)
+    usable = []
+    for c in scases:
+        b, e, obs, py, pyb, got = c
+        what = f'replace_typevars({py!r}, {pyb!r})'
+        if obs is None:
+            out.violation(f'C17:substitution:{type(got).__name__}', f'{what} raised {type(got).__name__}: {str(got)[:160]}', {'expression': exp_to_coq(e), 'bindings': {str(k): exp_to_coq(v) for k, v in b.items()}})
+            continue
+        usable.append(c)
+        brought = set().union(*[exp_vars(x) for x in b.values()]) if b else set()
+        left = exp_vars(obs) & (set(b) - brought)
+        if left:
+            out.violation('C17:substitution:variable-survives', f'{what} = {got!r} with arguments {[exp_to_coq(x) for x in obs[2]] if obs[0] == "app" else obs}: the type '
+                          f'variable(s) {sorted("T%d" % v for v in left)} still occur; the arguments are substituted in every occurrence through any depth',
+                          {'expression': exp_to_coq(e), 'bindings': {str(k): exp_to_coq(v) for k, v in b.items()}, 'result': exp_to_coq(obs)})
+    if 'Run/AgreeProcess.v' in ctx['failed_files'] or 'Model/Process.v' in ctx['failed_files']:
+        out.oblige('corr_subst', False, 'model does not build')
+    else:
+        sbad, serrs = run_shards(PROP, 'subst', 'From Coq Require Import List String.\nImport ListNotations.\nRequire Import Model.Process Run.AgreeProcess.\nOpen Scope string_scope.\n',
+                                 usable, render_subst_case, per=300, final='subst_mismatches', ty='list subst_case')
+        out.oblige('corr_subst: model tsubst = pane util.replace_typevars on every generated (bindings, type expression)', not sbad and not serrs,
+                   f'{len(sbad)} mismatches over {len(usable)}, {len(serrs)} shard errors')
+        for e in serrs[:1]:
+            out.violation('C17:corr_subst:shard-error', 'shard failed: ' + e[:400], {'correspondence': 'corr_subst', 'error': e[:1500]}, no_input=True)
+        if sbad and not out.has_unlisted_input():
+            c = usable[sbad[0]]
+            out.violation('C17:corr_subst', f'model and pane disagree on replace_typevars({c[3]!r}, {c[4]!r}): pane gives {c[5]!r}', {'correspondence': 'corr_subst', 'case': render_subst_case(c)}, no_input=True)
     if any(f in ctx['failed_files'] for f in ('Model/Process.v', 'Run/AgreeProcess.v')):
         out.oblige('corr_process', False, 'model does not build')
         return
